@@ -88,7 +88,7 @@ def frontend_exec_paths(cx, fe):
                 if ev.a == 'enter':
                     loops.append(ev.node)
                     if isinstance(ev.node, ast.For):
-                        fp.loop_iter = U(ev.node.iter)
+                        fp.loop_iter = U(st_expr(st, ev.node.iter, ev.frame, p, i))
                 elif ev.a in ('break', 'backedge') and loops:
                     loops.pop()
             elif ev.kind == 'enter' and ev.frame.func is sendf:
@@ -220,6 +220,14 @@ def recv_paths(cx, fe):
                                 args[kw.arg] = kw.value
                         rp.pip = args
                         rp.pip_node = ev.node
+                        # a callback given as a local function: classify by what the function calls
+                        cbn = args.get('callback')
+                        if isinstance(cbn, ast.Name):
+                            for nd in ast.walk(f.node):
+                                if isinstance(nd, (ast.FunctionDef, ast.AsyncFunctionDef)) and nd.name == cbn.id and nd is not f.node:
+                                    calls = [c for c in ast.walk(nd) if isinstance(c, ast.Call) and isinstance(c.func, ast.Attribute) and U(c.func.value) == 'self']
+                                    if len(calls) == 1 and len(nd.body) == 1:
+                                        args['callback'] = ast.parse('lambda x: %s' % U(calls[0]), mode='eval').body
                     elif fn.attr == 'append' and sub.args and isinstance(sub.args[0], ast.Constant) and sub.args[0].value == 0:
                         rp.zero_added = True
                     elif fn.attr == 'resetFrame' and U(ev.node.func.value) == 'self.framer':
